@@ -17,6 +17,8 @@ def write():
     checks = []
     engines = {}
     claimed = set()
+    regp = os.path.join(VERIF, "checks", "registered.json")
+    registered = set(json.load(open(regp))) if os.path.exists(regp) else None
     for f in sorted(os.listdir(os.path.join(VERIF, "checks"))):
         if not (f.startswith("c") and f.endswith(".py") and f[1:-3].isdigit()):
             continue
@@ -24,6 +26,8 @@ def write():
         if spec.get("disabled"):
             continue
         pid = spec["id"]
+        if registered is not None and pid not in registered:
+            continue
         claimed.add(pid)
         c = {
             "property_id": pid,
